@@ -44,6 +44,8 @@ pub struct QState<'a> {
     pub nested_counts: Vec<(usize, usize)>,
     pub nested: Option<NestedRun>,
     pub nested_visits: Vec<VisitRec>,
+    pub si: usize,
+    pub want_alt: Option<(u32, u32)>,
 }
 
 /// One query macro running on the unmatched archetype from inside the closure of the query in flight.
@@ -62,11 +64,19 @@ pub struct NestedRun {
 }
 
 /// The hook handed to the site bodies: visits plus the nested-macro protocol.
-pub struct QHook<'q, 'a, W>(pub &'q mut QState<'a>, pub std::marker::PhantomData<W>);
+pub struct QHook<'q, 'a, W>(pub &'q mut QState<'a>, pub Option<(&'q mut W, &'q mut Model)>);
 
 impl<'q, 'a, W: WorldSpec> VisitHook<W> for QHook<'q, 'a, W> {
     fn visit(&mut self, v: Visit<'_, '_, W>) -> Step {
-        self.0.on_visit::<W>(v)
+        let st = self.0.on_visit::<W>(v);
+        if let Some((n, mask)) = self.0.want_alt.take() {
+            if let Some((aw, am)) = self.1.as_mut() {
+                if !self.0.failed && !rt::has_violation() {
+                    run_alt_query::<W>(aw, am, self.0.si, n, mask, self.0.wrapping, self.0.stats);
+                }
+            }
+        }
+        st
     }
     fn nested_req(&mut self) -> Option<NestedReq> {
         self.0.nested_req::<W>()
@@ -265,6 +275,7 @@ impl<'a> QState<'a> {
                 Inner::Acc { acc } => 3 + ((acc.kind as u64) << 4) + ((acc.m as u64) << 8),
                 Inner::Peek { .. } => 4,
                 Inner::OtherQuery { kind, .. } => 5 + ((*kind as u64 % 3) << 4),
+                Inner::AltQuery { .. } => 6,
             };
             let key = [self.mac as u64, self.site.matches.len() as u64, k.min(12) as u64, act.step as u64, act.w.is_some() as u64, inner_tag, act.panic as u64]
                 .iter()
@@ -411,6 +422,11 @@ impl<'a> QState<'a> {
                     self.want_nested = Some((*kind, *n, *mask, *pk));
                 }
             }
+            Inner::AltQuery { n, mask } => {
+                if v.world.is_none() {
+                    self.want_alt = Some((*n, *mask));
+                }
+            }
             Inner::Peek { h } => {
                 if let Some(w) = v.world {
                     // a lookup through &self while the query is in flight must agree with the model
@@ -431,6 +447,7 @@ impl<'a> QState<'a> {
         }
         if act.panic {
             self.want_nested = None;
+            self.want_alt = None;
             rt::with(|r| r.fired = Some(Injected::Closure));
             std::panic::panic_any(Injected::Closure);
         }
@@ -451,6 +468,85 @@ impl<'a> QState<'a> {
             }
         }
         step
+    }
+}
+
+/// A complete `ecs_iter_destroy!` of site `si` on another world, run from inside the closure of a
+/// query of the same site in flight on the current world.
+fn run_alt_query<W: WorldSpec>(aw: &mut W, am: &mut Model, si: usize, n: u32, mask: u32, wrapping: bool, stats: &mut Stats) {
+    let info: &'static SiteInfo = &W::sites()[si];
+    let start: BTreeSet<Bits> = am.ents.iter().filter(|(_, r)| info.matches.contains(&r.arch)).map(|(b, _)| *b).collect();
+    let mut seen: BTreeSet<Bits> = BTreeSet::new();
+    let mut pending: Option<Bits> = None;
+    let mut k = 0usize;
+    let mut bad: Option<String> = None;
+    let brk = (n as usize) % (start.len() + 2);
+    let mut broke = false;
+    {
+        let mut hook = |v: Visit<'_, '_, W>| -> Step {
+            if let Some(b) = pending.take() {
+                am.remove(b, wrapping);
+            }
+            if broke {
+                bad = Some("closure ran again after Break".to_string());
+                return Step::Break;
+            }
+            let ent = v.ent;
+            let (arch, pos) = match am.ents.get(&ent) {
+                Some(r) => match info.matches.iter().position(|x| *x == r.arch) {
+                    Some(p) => (r.arch, p),
+                    None => {
+                        bad = Some(format!("closure ran for {:#x} of an unmatched archetype", ent));
+                        return Step::Break;
+                    }
+                },
+                None => {
+                    bad = Some(format!("closure ran for {:#x}, not a live entity of that world", ent));
+                    return Step::Break;
+                }
+            };
+            if !seen.insert(ent) {
+                bad = Some(format!("closure ran twice for {:#x}", ent));
+                return Step::Break;
+            }
+            let colmap = info.cols[pos];
+            for (i, c) in v.cols.iter().enumerate() {
+                let want = am.ents[&ent].cols[colmap[i]];
+                if c.obs() != want {
+                    bad = Some(format!("parameter {} of the visit of {:#x} is {:?}, the entity's value is {:?}", i, ent, c.obs(), want));
+                    return Step::Break;
+                }
+            }
+            let at_max = near_max(ent as u32 as u64) || near_max(am.archs[arch].ver);
+            let destroy = (mask >> (k % 32)) & 1 == 1 && (!at_max || wrapping);
+            let b = k == brk;
+            k += 1;
+            if destroy {
+                pending = Some(ent);
+            }
+            if b {
+                broke = true;
+            }
+            match (destroy, b) {
+                (false, false) => Step::Continue,
+                (false, true) => Step::Break,
+                (true, false) => Step::ContinueDestroy,
+                (true, true) => Step::BreakDestroy,
+            }
+        };
+        aw.query_mut(si, QMacro::IterDestroy, None, &mut hook);
+    }
+    if let Some(b) = pending.take() {
+        am.remove(b, wrapping);
+    }
+    stats.inc("inner_alt_world_iter_destroy");
+    if let Some(msg) = bad {
+        vio("C07", "cross-world-nested-query", format!("{}: ecs_iter_destroy! on another world from inside the closure: {}", info.name, msg));
+    } else if !broke && seen != start {
+        let missing: Vec<_> = start.difference(&seen).collect();
+        vio("C07", "not-every-entity-visited", format!("{}: ecs_iter_destroy! on another world from inside the closure: missing {:x?} of {}", info.name, missing, start.len()));
+    } else if broke && seen.len() != brk + 1 {
+        vio("C07", "ran-after-break", format!("{}: ecs_iter_destroy! on another world: broke at visit {} but ran {} times", info.name, brk, seen.len()));
     }
 }
 
@@ -744,8 +840,13 @@ impl<W: WorldSpec> Engine<W> {
         let wrapping = self.cfg.wrapping;
         // F3 inside ecs_iter_destroy!: the loop drops the tuple returned by destroy itself. Only
         // armed when no drop can happen in harness code running inside the closure.
-        let gecs_drops_only = mac == QMacro::IterDestroy && !plan.iter().any(|a| matches!(a.inner, Inner::OtherDestroy { .. } | Inner::OtherQuery { .. }));
+        let gecs_drops_only = mac == QMacro::IterDestroy && !plan.iter().any(|a| matches!(a.inner, Inner::OtherDestroy { .. } | Inner::OtherQuery { .. } | Inner::AltQuery { .. }));
         rt::arm(None, if gecs_drops_only { dp } else { None }, None, false);
+        // another live world of the same type, lent to the closure for cross-world nesting
+        let is_mut_mode = !matches!(mac, QMacro::IterBorrow | QMacro::FindBorrow);
+        let alt_id = if is_mut_mode && plan.iter().any(|a| matches!(a.inner, Inner::AltQuery { .. })) { self.alive_worlds().into_iter().find(|o| *o != wid) } else { None };
+        let mut alt_w: Option<W> = alt_id.and_then(|o| self.ws[o].take());
+        let mut alt_m: Option<Model> = alt_id.map(|o| std::mem::replace(&mut self.ms[o], Model::new(&[])));
         let (res, visits, created_other, pending, broke_at, calls_after_break, k, failed, nested_visits, nested_counts) = {
             let Engine { ws, ms, stats, interleavings, .. } = self;
             let w = ws[wid].as_mut().unwrap();
@@ -770,9 +871,15 @@ impl<W: WorldSpec> Engine<W> {
                 nested_counts: Vec::new(),
                 nested: None,
                 nested_visits: Vec::new(),
+                si,
+                want_alt: None,
             };
             let res = {
-                let mut hook = QHook::<W>(&mut qs, std::marker::PhantomData);
+                let alt = match (alt_w.as_mut(), alt_m.as_mut()) {
+                    (Some(a), Some(b)) => Some((a, b)),
+                    _ => None,
+                };
+                let mut hook = QHook::<W>(&mut qs, alt);
                 catch(|| match mac {
                     QMacro::Iter | QMacro::Find => w.query_mut(si, mac, qkey, &mut hook),
                     QMacro::IterDestroy | QMacro::IterDestroyUnit | QMacro::IterDestroyStep => w.query_mut(si, call_form, qkey, &mut hook),
@@ -785,6 +892,12 @@ impl<W: WorldSpec> Engine<W> {
             // a nested macro cut short by unwinding: the destroy of its last visit never happened
             (res, qs.visits, qs.created_other, qs.pending_destroy, qs.broke_at, qs.calls_after_break, qs.k, qs.failed, qs.nested_visits, qs.nested_counts)
         };
+        if let Some(o) = alt_id {
+            self.ws[o] = alt_w.take();
+            if let Some(m) = alt_m.take() {
+                self.ms[o] = m;
+            }
+        }
         let drop_calls = rt::with(|r| r.drop_calls);
         rt::disarm();
         rt::h(&[0x9E47, si as u64, mac as u64, k as u64]);
